@@ -13,6 +13,8 @@ def all_cells():
         pmuxes = ["advertised"]
         if proto == "grpc" and muxreq and launch != "reattach":
             pmuxes += ["old", "false"]
+        if proto == "netrpc" and ptls == "none" and htls == "none":
+            pmuxes += ["legacy"]      # the plugin does not name its protocol at all
         for pm in pmuxes:
             cells.append({"proto": proto, "allowed": allowed, "htls": htls, "ptls": ptls, "muxreq": muxreq, "pmux": pm, "launch": launch})
     return cells
